@@ -14,7 +14,8 @@ package main
 // and rendered as one record of Model/ErrorsRecoverLib.v: is the flag given to safe.PanicValue, is it set
 // (once) after the guarded call and not before, and where does safe.NewPanicErr(v, ..) go (the err field of
 // the task, an error item sent on / recorded in a stream element, nowhere).  A site without a deferred
-// recover at all is recognised too (report RNone).  Anything else in these bodies is not looked at (the
+// recover at all is recognised too (report RNone) — unless it hands the guarded work over to one private
+// helper that has the shape (c13rFollow).  Anything else in these bodies is not looked at (the
 // hand-off protocol around them is property C03's / C08's model).  Output: coq/Gen/RecoverSites.v.
 
 import (
@@ -137,27 +138,45 @@ func c13rContainsCall(n ast.Node, callee string) bool {
 	return found
 }
 
-// c13rSoleCallee: fn's body is a single statement that calls a package-level function declared in one of
-// the files (`return helper(..)` / `helper(..)`): that function.
-func c13rSoleCallee(fn *ast.FuncDecl, files ...*ast.File) *ast.FuncDecl {
+// c13rSoleCall (below): fn's body is a single statement that calls a package-level function declared in one of
+// the files (`return helper(..)` / `helper(..)`): that function and the call.
+// c13rParamFor: the helper h is called by c; the name of h's parameter that receives the argument `work` /
+// `x.work` (a method value handed over as a function) — or work itself when no argument is one.
+func c13rParamFor(h *ast.FuncDecl, c *ast.CallExpr, work string) string {
+	var params []string
+	for _, f := range h.Type.Params.List {
+		for _, n := range f.Names {
+			params = append(params, n.Name)
+		}
+	}
+	for i, a := range c.Args {
+		s := types.ExprString(a)
+		if (s == work || strings.HasSuffix(s, "."+work)) && i < len(params) {
+			return params[i]
+		}
+	}
+	return work
+}
+
+func c13rSoleCall(fn *ast.FuncDecl, files ...*ast.File) (*ast.FuncDecl, *ast.CallExpr) {
 	if fn == nil || fn.Body == nil || len(fn.Body.List) != 1 {
-		return nil
+		return nil, nil
 	}
 	var e ast.Expr
 	switch st := fn.Body.List[0].(type) {
 	case *ast.ReturnStmt:
 		if len(st.Results) != 1 {
-			return nil
+			return nil, nil
 		}
 		e = st.Results[0]
 	case *ast.ExprStmt:
 		e = st.X
 	default:
-		return nil
+		return nil, nil
 	}
 	c, ok := e.(*ast.CallExpr)
 	if !ok {
-		return nil
+		return nil, nil
 	}
 	f := c.Fun
 	if ix, ok := f.(*ast.IndexExpr); ok { // helper[T](..)
@@ -165,14 +184,86 @@ func c13rSoleCallee(fn *ast.FuncDecl, files ...*ast.File) *ast.FuncDecl {
 	}
 	id, ok := f.(*ast.Ident)
 	if !ok {
-		return nil
+		return nil, nil
 	}
 	for _, file := range files {
 		if h := c13rFunc(file, id.Name); h != nil && h.Body != nil {
-			return h
+			return h, c
 		}
 	}
-	return nil
+	return nil, nil
+}
+
+// c13rRecovers: one of the statements is a deferred function literal that calls recover().
+func c13rRecovers(body []ast.Stmt) bool {
+	for _, st := range body {
+		if d, ok := st.(*ast.DeferStmt); ok {
+			if l, ok := d.Call.Fun.(*ast.FuncLit); ok && c13rContainsCall(l.Body, "recover") {
+				return true
+			}
+		}
+	}
+	return false
+}
+
+// c13rFollow: a guarded body without a recovering deferred literal of its own that hands the guarded work over
+// to ONE private helper declared in the files — a statement `helper(..)` / `x.helper(..)` (a package-level
+// function, or the only method of that name) whose own body has the recovering deferred literal — is read
+// in that helper (at most two hops; the name of the guarded callee follows its argument into the helper's
+// parameter, c13rParamFor).  A deferred call of the outer body (`defer wg.Done()`, `defer
+// t.handOver(task)`) was registered before the helper was called: it runs after the helper has returned,
+// that is after the recovery — the order of the deferred actions is the helper's own.  Anything else is left
+// as it is (no recovering literal and no such helper: report RNone).
+func c13rFollow(body []ast.Stmt, work string, files ...*ast.File) ([]ast.Stmt, string) {
+	for hops := 0; hops < 2 && !c13rRecovers(body); hops++ {
+		var next []ast.Stmt
+		nextWork := work
+		n := 0
+		for _, st := range body {
+			es, ok := st.(*ast.ExprStmt)
+			if !ok {
+				continue
+			}
+			c, ok := es.X.(*ast.CallExpr)
+			if !ok {
+				continue
+			}
+			f := c.Fun
+			if ix, ok := f.(*ast.IndexExpr); ok { // helper[T](..)
+				f = ix.X
+			}
+			var cands []*ast.FuncDecl
+			switch x := f.(type) {
+			case *ast.Ident:
+				for _, file := range files {
+					if h := c13rFunc(file, x.Name); h != nil {
+						cands = append(cands, h)
+					}
+				}
+			case *ast.SelectorExpr:
+				if _, ok := x.X.(*ast.Ident); !ok {
+					continue
+				}
+				for _, file := range files {
+					for _, d := range file.Decls {
+						if fn, ok := d.(*ast.FuncDecl); ok && fn.Recv != nil && fn.Name.Name == x.Sel.Name {
+							cands = append(cands, fn)
+						}
+					}
+				}
+			}
+			if len(cands) == 1 && cands[0].Body != nil && c13rRecovers(cands[0].Body.List) {
+				next = cands[0].Body.List
+				nextWork = c13rParamFor(cands[0], c, work)
+				n++
+			}
+		}
+		if n != 1 {
+			return body, work
+		}
+		body, work = next, nextWork
+	}
+	return body, work
 }
 
 type c13Site struct {
@@ -388,7 +479,10 @@ func c13ExtractRecover(repo string) (string, string, error) {
 		body func() ([]ast.Stmt, error)
 		work string
 	}
-	lit := func(fn *ast.FuncDecl, what string, pick func(*ast.BlockStmt) *ast.FuncLit) ([]ast.Stmt, error) {
+	// the name under which the guarded callee is known where the literal was found (a helper may take it as a
+	// parameter of another name: `forwardToStream(srw.recv, srw.close)` with `recvSource func() (T, error)`)
+	workName := map[string]string{}
+	lit := func(site, work string, fn *ast.FuncDecl, what string, pick func(*ast.BlockStmt) *ast.FuncLit) ([]ast.Stmt, error) {
 		if fn == nil || fn.Body == nil {
 			return nil, fmt.Errorf("%s not found", what)
 		}
@@ -396,16 +490,18 @@ func c13ExtractRecover(repo string) (string, string, error) {
 		// a body that only hands over to a private helper of the same package (`return helper(x.recv, x.close)`):
 		// the literal is looked for in the helper (at most two hops)
 		for hops := 0; l == nil && hops < 2; hops++ {
-			h := c13rSoleCallee(fn, fm, ft, fs)
+			h, c := c13rSoleCall(fn, fm, ft, fs)
 			if h == nil {
 				break
 			}
+			work = c13rParamFor(h, c, work)
 			fn = h
 			l = pick(fn.Body)
 		}
 		if l == nil {
 			return nil, fmt.Errorf("%s: the function literal was not found", what)
 		}
+		workName[site] = work
 		return l.Body.List, nil
 	}
 	sites := []site{
@@ -417,16 +513,16 @@ func c13ExtractRecover(repo string) (string, string, error) {
 			return fn.Body.List, nil
 		}, "runWrapper"},
 		{"site_toolcall", func() ([]ast.Stmt, error) {
-			return lit(c13rFunc(ft, "parallelRunToolCall"), "parallelRunToolCall", c13rGoLit)
+			return lit("site_toolcall", "run", c13rFunc(ft, "parallelRunToolCall"), "parallelRunToolCall", c13rGoLit)
 		}, "run"},
 		{"site_convert_forwarder", func() ([]ast.Stmt, error) {
-			return lit(c13rMethod(fs, "streamReaderWithConvert", "toStream"), "(*streamReaderWithConvert).toStream", c13rGoLit)
+			return lit("site_convert_forwarder", "recv", c13rMethod(fs, "streamReaderWithConvert", "toStream"), "(*streamReaderWithConvert).toStream", c13rGoLit)
 		}, "recv"},
 		{"site_child_forwarder", func() ([]ast.Stmt, error) {
-			return lit(c13rMethod(fs, "childStreamReader", "toStream"), "(*childStreamReader).toStream", c13rGoLit)
+			return lit("site_child_forwarder", "recv", c13rMethod(fs, "childStreamReader", "toStream"), "(*childStreamReader).toStream", c13rGoLit)
 		}, "recv"},
 		{"site_copy_peek", func() ([]ast.Stmt, error) {
-			return lit(c13rMethod(fs, "parentStreamReader", "peek"), "(*parentStreamReader).peek", c13rOnceLit)
+			return lit("site_copy_peek", "Recv", c13rMethod(fs, "parentStreamReader", "peek"), "(*parentStreamReader).peek", c13rOnceLit)
 		}, "Recv"},
 	}
 	var b strings.Builder
@@ -438,7 +534,12 @@ func c13ExtractRecover(repo string) (string, string, error) {
 		if err != nil {
 			return "", "", err
 		}
-		s, err := c13rAnalyse(st.name, body, st.work)
+		work := st.work
+		if w, ok := workName[st.name]; ok {
+			work = w
+		}
+		body, work = c13rFollow(body, work, fm, ft, fs)
+		s, err := c13rAnalyse(st.name, body, work)
 		if err != nil {
 			return "", "", err
 		}
